@@ -27,7 +27,7 @@ static void p_model_pass(phist *h, ctrans *t, int annotate)
     const vh_cipher *c = h->c;
     pstate m; int i;
     memset(&m, 0, sizeof(m));
-    if (t) { t->out_n = 0; t->backend = -1; t->canary_damage = 0; }
+    if (t) { t->out_n = 0; t->backend = -1; t->canary_damage = 0; t->rejected_wrote = 0; }
     for (i = 0; i < h->n; ++i) {
         cop *o = &h->ops[i];
         int ok = p_valid_args(c, o), expect, judged = 0;
@@ -313,6 +313,11 @@ void phist_exec(const phist *h, int i, vh_obj *ob, ctrans *t, const char *prefix
         vh_call_begin(o->kind == P_DECRYPT ? "parallel_ecb_decrypt" : "parallel_ecb_encrypt");
         ret = (o->kind == P_DECRYPT ? c->par_decrypt : c->par_encrypt)((o->flags & F_NULL_OUT) ? NULL : out, (o->flags & F_NULL_IN) ? NULL : in, tw, o->len, obj);
         vh_call_end();
+        if (!ret && !(o->flags & F_NULL_OUT) && !t->rejected_wrote && !((o->flags & F_TWEAK_OUT) && !(o->flags & F_INPLACE))) {      /* a refused call leaves the caller's output buffer as it was */
+            uint32_t k; const uint8_t *orig = h->pool + o->doff;
+            if (!(o->flags & F_INPLACE)) vh_make_def(out, o->len);
+            for (k = 0; k < o->len; ++k) if (out[k] != ((o->flags & F_INPLACE) ? orig[k] : 0xEE)) { t->rejected_wrote = i + 1; break; }
+        }
         if (ret && t->out_n + o->len <= H_OUT) { memcpy(t->out + t->out_n, out, o->len); t->r[i].olen = o->len; t->out_n += o->len; }
         break; }
     }
